@@ -159,6 +159,16 @@ func classify(e actionlint.InvalidGlobPattern) dobs {
 	return o
 }
 
+// safeObs: both validators under recover()
+func safeObs(pat string) (ref, path []dobs, panicMsg string) {
+	defer func() {
+		if r := recover(); r != nil {
+			panicMsg = fmt.Sprint(r)
+		}
+	}()
+	return implObs(true, pat), implObs(false, pat), ""
+}
+
 func implObs(isRef bool, pat string) []dobs {
 	var errs []actionlint.InvalidGlobPattern
 	if isRef {
@@ -712,8 +722,17 @@ func main() {
 				}
 				for i, p := range batch {
 					sl.enter(p)
-					ref, path := implObs(true, p), implObs(false, p)
+					ref, path, pmsg := safeObs(p)
 					sl.leave()
+					if pmsg != "" {
+						st.mu.Lock()
+						st.failCount["panic"]++
+						if st.failCount["panic"] <= maxKept {
+							st.fails = append(st.fails, failure{What: "a validator panics (while other goroutines validate other patterns): " + pmsg, Key: "panic:" + strconv.Quote(p), Pattern: strconv.Quote(p), Items: its[i], Mode: "ref+path"})
+						}
+						st.mu.Unlock()
+						continue
+					}
 					mr, mp := "-", "-"
 					if m != nil {
 						mr, mp = ans[2*i], ans[2*i+1]
@@ -749,6 +768,29 @@ func main() {
 	}
 	close(jobs)
 	wg.Wait()
+
+	// a disagreement with the model that disappears when the pattern is validated once more with
+	// nothing else running is not a wrong verdict of the validator but a validator that is not
+	// safe for concurrent use (the linter validates the filters of several files at once)
+	{
+		conc := 0
+		for _, d := range st.disagree {
+			pat, err := strconv.Unquote(d.Pattern)
+			if err != nil {
+				continue
+			}
+			if obsString(implObs(d.Mode == "ref", pat)) == d.Model {
+				conc++
+				if conc <= 3 {
+					st.fails = append(st.fails, failure{What: "validated while other goroutines validate other patterns the verdict was " + d.Impl + "; validated alone it is " + d.Model + " (= the model): the validators are not safe for concurrent use",
+						Key: "concurrent-validation:" + d.Mode, Pattern: d.Pattern, Items: d.Items, Mode: d.Mode})
+				}
+			}
+		}
+		if conc > 0 {
+			st.failCount["concurrent-validation"] = conc
+		}
+	}
 
 	// seeded subset for vm_compute: corpus + random enumeration members + random patterns
 	cases, err := os.Create(filepath.Join(*out, "cases.txt"))
